@@ -9,14 +9,13 @@
 //  h14g  time_point -> CBinTimestamp -> time_point identity
 #include "vh.h"
 #include "ref/calendar.h"
+#include "chrono_common.h"
 #include <string>
 #include <chrono>
 #include "bitserializer/convert.h"
 #include "bitserializer/serialization_detail/bin_timestamp.h"
 using namespace BitSerializer;
-namespace chr = std::chrono;
 typedef chr::duration<int64_t, std::ratio<86400>> days_t;
-template <class D> using tp_t = chr::time_point<chr::system_clock, D>;
 
 template <class D> static inline int print(const tp_t<D>& tp, std::string& s) { return vh::outcome([&] { Convert::Detail::To(tp, s); }); }
 
@@ -50,38 +49,7 @@ template <class D> static inline int prop_print(const unsigned char* in, unsigne
 	if ((s[0] == '+') != (p[0] >= 10000)) return 0;
 	return 1;
 }
-// ---- h14b: parsing.  in: year(int16 as int64 range -9999..9999), month, day, h, m, s
-struct Fields { int64_t y; int mo, d, h, mi, s; };
-static inline Fields load_fields(const unsigned char* in) { Fields f; f.y = vh::rd<int16_t>(in); f.mo = in[2]; f.d = in[3]; f.h = in[4]; f.mi = in[5]; f.s = in[6]; return f; }
-static inline size_t render(const Fields& f, char* b) {
-	size_t n = 0; int64_t y = f.y;
-	if (y < 0) { b[n++] = '-'; y = -y; }
-	b[n++] = (char)('0' + y / 1000 % 10); b[n++] = (char)('0' + y / 100 % 10); b[n++] = (char)('0' + y / 10 % 10); b[n++] = (char)('0' + y % 10);
-	auto two = [&](int v, char sep) { b[n++] = sep; b[n++] = (char)('0' + v / 10 % 10); b[n++] = (char)('0' + v % 10); };
-	two(f.mo, '-'); two(f.d, '-'); two(f.h, 'T'); two(f.mi, ':'); two(f.s, ':'); b[n++] = 'Z';
-	return n;
-}
-VH_EXPORT int va_fields(const unsigned char* in) { Fields f = load_fields(in); return f.y >= -9999 && f.y <= 9999 && f.mo <= 99 && f.d <= 99 && f.h <= 99 && f.mi <= 99 && f.s <= 99; }
-template <class D> static inline int prop_parse(const unsigned char* in, unsigned char* out) {
-	Fields f = load_fields(in);
-	char text[24]; size_t n = render(f, text);
-	verif_symbolic_phase();
-	tp_t<D> tp(D(12345));
-	int rc = vh::outcome([&] { Convert::Detail::To(std::string_view(text, n), tp); });
-	int64_t got = tp.time_since_epoch().count();
-	out[0] = (unsigned char)rc; vh::wr(out + 1, got);
-	bool ok_fields = cal::valid(f.y, f.mo, f.d) && f.h <= 23 && f.mi <= 59 && f.s <= 59;
-	if (!ok_fields) return rc == vh::INVALID_ARGUMENT && got == 12345;
-	typedef __int128 i128;
-	i128 secs = (i128)cal::days_from_civil(f.y, f.mo, f.d) * 86400 + f.h * 3600 + f.mi * 60 + f.s;
-	// exact value in D, if representable and exact (no rounding of anything but second fractions is allowed)
-	constexpr int64_t num = D::period::num, den = D::period::den;
-	i128 scaled = secs * den;
-	if (scaled % num != 0) return rc == vh::OUT_OF_RANGE && got == 12345;        // e.g. 00:00:01 into a minutes-based time point
-	i128 v = scaled / num;
-	if (v > (i128)INT64_MAX || v < (i128)INT64_MIN) return rc == vh::OUT_OF_RANGE && got == 12345;
-	return rc == vh::OK && (i128)got == v;
-}
+VH_EXPORT int va_fields(const unsigned char* in) { return fields_ok(in); }
 // ---- h14c: round trip through the real text
 template <class D> static inline int prop_roundtrip(const unsigned char* in, unsigned char* out) {
 	int64_t cnt = vh::rd<int64_t>(in);
